@@ -9,6 +9,7 @@
                   (Model/Bounds.v, the functions the theorems of Props/C01.v are about) from the crate's own estimate and
                   demands bit-for-bit equality, and equality of the estimate itself wherever the model has it. *)
 From DS Require Import Base.Prelude Base.FloatBits Model.Bounds.
+From DS Require Model.HllEst.
 From Coq Require Import Floats.
 Open Scope Z_scope.
 
@@ -120,6 +121,20 @@ Definition tie_op (op : zop) (o : list Z) : bool :=
                                             (at_ o (s + 2))
                                 else at_ o (s + 2) =? 0) SDS
       | _ => false
+      end
+  | 4 =>
+      (* coupon mode: estimate and bounds are functions of the coupon count (hll/container.rs);
+         array mode: the bounds are hll_lower / hll_upper of the crate's estimate for the sketch's own out-of-order flag *)
+      match a, o with
+      | [lgk; _; _; _; _], e :: rest =>
+          let mode := nth 7 rest 0 in let x := nth 8 rest 0 in
+          let b := firstn 6 rest in
+          if mode <? 2 then
+            (bz (HllEst.container_estimate (zN x)) =? e) &&
+            zeqb_list b (map (fun s => bz (HllEst.container_lower_bound (zN x) s)) SDS ++
+                         map (fun s => bz (HllEst.container_upper_bound (zN x) s)) SDS)
+          else zeqb_list b (hll_bounds_of (zN lgk) (negb (x =? 0)) (F e))
+      | _, _ => false
       end
   | 5 =>
       (* the bounds are those of the HIP or of the ICON estimator for the sketch's own coupon count *)
